@@ -276,3 +276,75 @@ pub fn run(toks: Vec<Tok>) -> Vec<Tok> {
         out
     })
 }
+
+/// Datagram traffic counters: the real UDP multiplexer between a client side that refuses every k-th reply and an echo peer.
+/// in : [drop_every (0 = none), n, len]     the client sends n datagrams of len bytes, each is echoed back
+/// out: [996] | [bytes reported for the client-to-peer direction, bytes reported for the peer-to-client direction,
+///       bytes the peer received, bytes the client received]
+pub fn udp(toks: Vec<Tok>) -> Vec<Tok> {
+    use std::sync::atomic::{AtomicU64, Ordering};
+    use std::sync::Arc;
+    use tokio::sync::mpsc;
+    use trusttunnel::verif::udp;
+    let f = toks[0].clone();
+    let rt = tokio::runtime::Builder::new_multi_thread().worker_threads(2).enable_all().build().unwrap();
+    rt.block_on(async move {
+        let ctx = crate::ctxutil::simple_ctx(&crate::ctxutil::Opts { allow_private: true, ipv6_available: true }, None);
+        let Ok(peer) = tokio::net::UdpSocket::bind("127.0.0.1:0").await else { return vec![vec![996]] };
+        let peer_addr = peer.local_addr().unwrap();
+        let peer_got = Arc::new(AtomicU64::new(0));
+        let pg = peer_got.clone();
+        tokio::spawn(async move {
+            let mut buf = vec![0u8; 70000];
+            loop {
+                if let Ok((n, from)) = peer.recv_from(&mut buf).await {
+                    pg.fetch_add(n as u64, Ordering::SeqCst);
+                    let _ = peer.send_to(&buf[..n], from).await;
+                }
+            }
+        });
+        let (tx_in, rx_in) = mpsc::channel(64);
+        let (tx_out, mut rx_out) = mpsc::unbounded_channel::<udp::Datagram>();
+        let up = Arc::new(AtomicU64::new(0));
+        let down = Arc::new(AtomicU64::new(0));
+        let (u2, d2) = (up.clone(), down.clone());
+        let ctx2 = ctx.clone();
+        let drop_every = f[0] as usize;
+        let mux = tokio::spawn(async move {
+            udp::run_multiplexer_dropping(
+                &ctx2,
+                rx_in,
+                tx_out,
+                Duration::from_secs(30),
+                move |incoming, n| {
+                    if incoming {
+                        d2.fetch_add(n as u64, Ordering::SeqCst);
+                    } else {
+                        u2.fetch_add(n as u64, Ordering::SeqCst);
+                    }
+                },
+                drop_every,
+            )
+            .await
+        });
+        let src: std::net::SocketAddr = "10.8.0.2:40000".parse().unwrap();
+        let mut client_got = 0u64;
+        for i in 0..f[1] {
+            let payload = vec![(i % 251) as u8; f[2] as usize];
+            let _ = tx_in.send(udp::Datagram { source: src, destination: peer_addr, payload }).await;
+            // one at a time: the echo of this datagram is offered to the client side before the next one goes out
+            let kept = drop_every == 0 || ((i + 1) as usize) % drop_every != 0;
+            match tokio::time::timeout(Duration::from_millis(if kept { 1000 } else { 60 }), rx_out.recv()).await {
+                Ok(Some(d)) => client_got += d.payload.len() as u64,
+                _ => {}
+            }
+        }
+        tokio::time::sleep(Duration::from_millis(50)).await;
+        while let Ok(d) = rx_out.try_recv() {
+            client_got += d.payload.len() as u64;
+        }
+        drop(tx_in);
+        let _ = tokio::time::timeout(Duration::from_millis(200), mux).await;
+        vec![vec![up.load(Ordering::SeqCst) as u128, down.load(Ordering::SeqCst) as u128, peer_got.load(Ordering::SeqCst) as u128, client_got as u128]]
+    })
+}
